@@ -549,6 +549,9 @@ func renamesFor(rec, cur funcNames) map[string]string {
 			if matchedNew[j] || recAll[c[0]] || c[1] != l[1] {
 				continue
 			}
+			if l[3] == "" && c[3] != "" {
+				continue // a loop's own variable does not stand in for an ordinary local
+			}
 			cands = append(cands, j)
 		}
 		if len(cands) == 0 {
@@ -1260,4 +1263,32 @@ func (c *FuncContract) expandCalleeAliases() {
 			fixAll(cs)
 		}
 	}
+}
+
+
+// renamedCapture: the current name of a variable that the function containing lit had recorded under the name `name`
+// (a closure's captured state is addressed as x.name in the contracts of the closure's users).
+func (E *Engine) renamedCapture(p *packages.Package, lit *ast.FuncLit, name string) string {
+	if E.names == nil || p == nil {
+		return ""
+	}
+	for fn, d := range E.decls {
+		if E.declPkg[fn] != p || d.Body == nil || lit.Pos() < d.Pos() || lit.End() > d.End() {
+			continue
+		}
+		rel := strings.TrimPrefix(p.PkgPath, modulePath+"/")
+		rec, ok := E.names[rel+"."+funcKey(fn)]
+		if !ok {
+			rec, ok = E.names[rel+"."+funcKey(fn)+"$1"]
+			if !ok {
+				return ""
+			}
+		}
+		ren := renamesFor(rec, namesOfDecl(p, d))
+		if n, ok := ren[name]; ok && !strings.ContainsAny(n, "($[") {
+			return n
+		}
+		return ""
+	}
+	return ""
 }
